@@ -19,10 +19,14 @@ var (
 	reEnvExpr   = regexp.MustCompile(`\(\*Protocol\)\.(DecodeEnveloped\(\$0,\$2\)|readEnvelopeHeader\(\$0,.*?,\$2\))#0\.`)
 )
 
+// c12Inline: helpers named by the frozen expectations stay calls; any other
+// unexported helper of the package is explored in place.
+var c12Inline = inlineHelpers("readEnvelopeHeader", "readStrictEnvelope", "readNonStrictEnvelope", "readStrictNameType", "readNonStrictNameType", "readBytes", "read", "discard", "fixedWidth", "writeField", "realWriteMapItem", "returnStreamReader", "returnStreamWriter")
+
 // classifyArms reduces each success path of a request decoder to
 // "sorted framing conditions => responder".
 func classifyArms(f *ssa.Function, respIdx int) ([]string, []string) {
-	seqs, ok := core.TraceSeqs(f, func(call ssa.CallInstruction) bool { return true })
+	seqs, ok := core.TraceSeqsInline(f, func(call ssa.CallInstruction) bool { return true }, c12Inline)
 	if !ok {
 		return nil, []string{"too many paths"}
 	}
@@ -124,7 +128,7 @@ func checkC12(c *core.Ctx, l *core.Ledger) {
 	}
 	// stream reader
 	if f := fn("StreamReader.ReadEnvelopeBegin"); f != nil {
-		tr, _ := core.TraceSeqs(f, func(call ssa.CallInstruction) bool { return true })
+		tr, _ := core.TraceSeqsInline(f, func(call ssa.CallInstruction) bool { return true }, c12Inline)
 		got := core.ResolveLit(normRepl.Replace(core.SeqString(tr)))
 		want := "[!(sr.ReadInt32($0)#0>c:0) call:sr.ReadInt32($0) call:sr.ReadInt32($0) call:sr.readStrictEnvelope($0,sr.ReadInt32($0)#0) ret(LIT{SeqID=sr.ReadInt32($0)#0},c:nil)] | [(sr.ReadInt32($0)#0>c:0) call:sr.ReadInt32($0) call:sr.ReadInt32($0) call:sr.readNonStrictEnvelope($0,sr.ReadInt32($0)#0) ret(LIT{SeqID=sr.ReadInt32($0)#0},c:nil)]"
 		l.Add(core.Obligation{Rule: "ENV-SEQ", Key: "StreamReader.ReadEnvelopeBegin", Pos: c.Rel(f.Pos()), Status: st(sortEvents(got) == sortEvents(want)),
@@ -133,7 +137,7 @@ func checkC12(c *core.Ctx, l *core.Ledger) {
 		l.Check(envelopeBeginOrder(f), "ENV-SEQ", "StreamReader.ReadEnvelopeBegin.order", c.Rel(f.Pos()), "initial word, then name/type, then seqid — and SeqID is assigned from the last read", "ReadEnvelopeBegin does not read (initial word, name/type, seqid) in this order or assigns SeqID from the wrong read")
 	}
 	if f := fn("StreamReader.readStrictEnvelope"); f != nil {
-		tr, _ := core.TraceSeqs(f, func(call ssa.CallInstruction) bool { return true })
+		tr, _ := core.TraceSeqsInline(f, func(call ssa.CallInstruction) bool { return true }, c12Inline)
 		got := core.ResolveLit(normRepl.Replace(core.SeqString(tr)))
 		want := "[!(($1&c:4294901760)!=c:2147549184) call:sr.ReadString($0) ret(LIT{Name=sr.ReadString($0)#0;Type=$1},c:nil)]"
 		l.Add(core.Obligation{Rule: "ENV-SEQ", Key: "StreamReader.readStrictEnvelope", Pos: c.Rel(f.Pos()), Status: st(got == want), Detail: "version word masked with 0xffff0000 must equal 0x80010000 (same constant the writer ORs in); name string; type = low byte of the word; trace " + got})
@@ -163,7 +167,7 @@ func checkC12(c *core.Ctx, l *core.Ledger) {
 			}
 			how = "bulk read of exactly the length parameter"
 		}
-		tr, _ := core.TraceSeqs(f, func(call ssa.CallInstruction) bool { return true })
+		tr, _ := core.TraceSeqsInline(f, func(call ssa.CallInstruction) bool { return true }, c12Inline)
 		trs := core.ResolveLit(normRepl.Replace(core.SeqString(tr)))
 		nameOK := strings.Contains(trs, "Name=") && strings.Contains(trs, "Type=sr.ReadInt8($0)#0")
 		l.Add(core.Obligation{Rule: "ENV-SEQ", Key: "StreamReader.readNonStrictEnvelope", Pos: c.Rel(f.Pos()), Status: st(ok && nameOK), Detail: "legacy layout: <length> name bytes, then one type byte: " + got + " (" + how + "); trace " + trs})
@@ -174,14 +178,14 @@ func checkC12(c *core.Ctx, l *core.Ledger) {
 		want := "[call:ReadValue call:readNonStrictNameType call:ReadValue call:ReadValue] | [call:ReadValue call:readStrictNameType call:ReadValue call:ReadValue]"
 		full := normSeqs(m.RSeqs(f))
 		ok := got == want && strings.HasPrefix(full, "[call:ReadValue(c:8,c:0) ") && strings.Contains(full, "call:ReadValue(c:12,")
-		tr, _ := core.TraceSeqs(f, func(call ssa.CallInstruction) bool { return true })
+		tr, _ := core.TraceSeqsInline(f, func(call ssa.CallInstruction) bool { return true }, c12Inline)
 		trs := normRepl.Replace(core.SeqString(tr))
 		ok = ok && strings.Contains(trs, "(v.GetI32(alloc:val)>c:0) call:Reader.readNonStrictNameType") && strings.Contains(trs, "!(v.GetI32(alloc:val)>c:0) call:Reader.readStrictNameType")
 		l.Add(core.Obligation{Rule: "ENV-SEQ", Key: "Reader.ReadEnveloped", Pos: c.Rel(f.Pos()), Status: st(ok), Detail: "i32 word at offset 0; >0 => legacy name/type, else strict; then i32 seqid and the struct body, offsets threaded; " + got})
 		l.Check(offsetsThreaded(f), "ENV-SEQ", "Reader.ReadEnveloped.offsets", c.Rel(f.Pos()), "each ReadValue starts at the offset returned by the previous step", "ReadEnveloped does not thread the offset returned by one read into the next")
 	}
 	if f := fn("Reader.readStrictNameType"); f != nil {
-		tr, _ := core.TraceSeqs(f, func(call ssa.CallInstruction) bool { return true })
+		tr, _ := core.TraceSeqsInline(f, func(call ssa.CallInstruction) bool { return true }, c12Inline)
 		got := normRepl.Replace(core.SeqString(tr))
 		ok := strings.Contains(got, "!(($1&c:4294901760)!=c:2147549184)") && strings.Contains(got, "call:Reader.ReadValue($0,c:11,$2)") && strings.Contains(got, "Name=v.GetString(Reader.ReadValue($0,c:11,$2)#0);Type=$1")
 		l.Add(core.Obligation{Rule: "ENV-SEQ", Key: "Reader.readStrictNameType", Pos: c.Rel(f.Pos()), Status: st(ok), Detail: "same version mask/constant as the stream reader; binary name at the given offset; type from the word: " + got})
@@ -208,14 +212,14 @@ func checkC12(c *core.Ctx, l *core.Ledger) {
 		l.Check(strings.Join(a1, "\n") == strings.Join(a2, "\n"), "CLASSIFY", "siblings-agree", "", "both request decoders have identical (framing test => responder) arms", "the two request decoders classify differently:\n  DecodeRequest: "+strings.Join(a1, " || ")+"\n  ReadRequest: "+strings.Join(a2, " || "))
 	}
 	if f := fn("Protocol.readEnvelopeHeader"); f != nil {
-		tr, _ := core.TraceSeqs(f, func(call ssa.CallInstruction) bool { return true })
+		tr, _ := core.TraceSeqsInline(f, func(call ssa.CallInstruction) bool { return true }, c12Inline)
 		got := normRepl.Replace(core.SeqString(tr))
 		want := "[call:inv:ReadEnvelopeBegin($1;) !((protocol/stream.Reader).ReadEnvelopeBegin()#0.Type!=$2) ret((protocol/stream.Reader).ReadEnvelopeBegin()#0,(protocol/stream.Reader).ReadEnvelopeBegin()#1)]"
 		l.Add(core.Obligation{Rule: "CLASSIFY", Key: "readEnvelopeHeader", Pos: c.Rel(f.Pos()), Status: st(got == want), Detail: "succeeds only when the decoded header's type equals the expected type, returning that header: " + got})
 	}
 	// in ReadRequest the body is decoded between header and ReadEnvelopeEnd with the same stream reader
 	if rr != nil {
-		tr, _ := core.TraceSeqs(rr, func(call ssa.CallInstruction) bool { return true })
+		tr, _ := core.TraceSeqsInline(rr, func(call ssa.CallInstruction) bool { return true }, c12Inline)
 		ok := true
 		for _, s := range tr {
 			j := strings.Join(s, " ")
@@ -248,7 +252,7 @@ func checkC12(c *core.Ctx, l *core.Ledger) {
 		if f == nil {
 			continue
 		}
-		tr, _ := core.TraceSeqs(f, func(call ssa.CallInstruction) bool { return true })
+		tr, _ := core.TraceSeqsInline(f, func(call ssa.CallInstruction) bool { return true }, c12Inline)
 		ok := len(tr) > 0
 		for _, s := range tr {
 			j := normRepl.Replace(core.ResolveLit(strings.Join(s, " ")))
